@@ -440,6 +440,14 @@ pub fn expand_glob(tokens: &mut types::Tokens) {
                                     // type `ls .*rc` instead of `ls *rc`
                                     continue;
                                 }
+                                // a hidden directory is not matched by a
+                                // `*` component either (`*/x`)
+                                let in_hidden_dir = file_path.rsplit('/').zip(item.rsplit('/')).skip(1)
+                                    .any(|(name, ptn)| name.starts_with('.') && name != "." && name != ".."
+                                         && ptn.contains('*') && !ptn.starts_with(".*"));
+                                if in_hidden_dir {
+                                    continue;
+                                }
                                 result.push(file_path.to_string());
                                 is_empty = false;
                             }
